@@ -21,10 +21,12 @@ type Chooser struct {
 	pos       int
 	Rec       []Decision
 	Diverged  string
+	seed      uint64
+	preset    []int // search mode: values for the first picks (enumeration of a dimension by run index)
 }
 
 func NewSearchChooser(seed uint64, run uint64) *Chooser {
-	return &Chooser{rng: rand.New(rand.NewPCG(seed, run*0x9E3779B97F4A7C15+0x1234567))}
+	return &Chooser{rng: rand.New(rand.NewPCG(seed, run*0x9E3779B97F4A7C15+0x1234567)), seed: seed}
 }
 
 func NewReplayChooser(tape []Decision, strict bool) *Chooser {
@@ -51,6 +53,9 @@ func (c *Chooser) Pick(label string, n int) int {
 		} else {
 			v = 0
 		}
+	} else if len(c.preset) > 0 {
+		v = c.preset[0] % n
+		c.preset = c.preset[1:]
 	} else {
 		if n == 1 {
 			v = 0
@@ -89,4 +94,19 @@ func (c *Chooser) Perm(label string, n int) []int {
 		p[i], p[j] = p[j], p[i]
 	}
 	return p
+}
+
+// Preset fixes the values of the next picks (search mode only): used to enumerate one dimension by run index.
+func (c *Chooser) Preset(vals ...int) {
+	if !c.replaying {
+		c.preset = append(c.preset, vals...)
+	}
+}
+
+// Reseed restarts the search stream from (seed, x), so that runs sharing x draw the same remaining decisions.
+// No effect in replay mode (the tape already holds the values).
+func (c *Chooser) Reseed(x uint64) {
+	if !c.replaying {
+		c.rng = rand.New(rand.NewPCG(c.seed, x*0x9E3779B97F4A7C15+0x7654321))
+	}
 }
